@@ -103,8 +103,10 @@ LapAllClauses(c) ==
   LET S == DecState(c.st) IN
   IF ~Has(c, "lapall") THEN {} ELSE
   {<<"laplacians_all_orders:returned", Ret(c.lapall)>>,
-   <<"laplacians_all_orders:orders", Ret(c.lapall) => {r.d : r \in Rng(c.lapall.mats)} = 1..(MaxSize(S) - 1)
-                                                        /\ Len(c.lapall.mats) = MaxSize(S) - 1>>,
+   \* "all orders": at least every order >= 1 that has a hyperedge, each listed once
+   <<"laplacians_all_orders:orders", Ret(c.lapall) =>
+        /\ {d \in 1..(MaxSize(S) - 1) : OfOrder(S, d) # {}} \subseteq {r.d : r \in Rng(c.lapall.mats)}
+        /\ Cardinality({r.d : r \in Rng(c.lapall.mats)}) = Len(c.lapall.mats)>>,
    <<"laplacians_all_orders:entries", (Ret(c.lapall) /\ Ret(c.adj) /\ MapOK(c.adj, S.nodes)) =>
         \A r \in Rng(c.lapall.mats) : LET F(n, m) == LapD(S, r.d, n, m) IN SquareIs(r, c.adj.map, F)>>}
 
